@@ -1335,6 +1335,9 @@ def _canon_step(bv, it, terms):
     # ---- mappings: items(), and keys with look-ups
     if is_call(it, ("m", "items")):
         D = it[2][0]
+        # D[k] while walking D.items() is the value of the pair
+        if used(T.idx(D, P0)):
+            return it, {T.idx(D, P0): P1}, None
         if not used(P0):
             return ("call", ("m", "values"), (D,), ()), {P1: bv}, None
         if not used(P1):
